@@ -1352,6 +1352,41 @@ Section Benign3.
     - right. split; [apply none_nosym; exact N1 | discriminate].
   Qed.
 
+  (* a regular member whose name is an existing regular file: the content is replaced in place (mode kept) *)
+  Lemma step_reg_overwrite s n d i c rhead ino :
+    comps n = rev (c :: rhead) -> plain (rev (c :: rhead)) ->
+    WF s -> node_at s R = Some NDir -> node_at s ((c :: rhead) ++ R) = Some (NFile ino) ->
+    step Repaired all R s (MReg n d) i = (OOk, write_file s ino d).
+  Proof.
+    intros E PL W DR N. destruct PL as [DD LF].
+    assert (DD' : existsb is_dd (rev rhead) = false).
+    { cbn [rev] in DD. rewrite existsb_app in DD. apply orb_false_iff in DD. tauto. }
+    assert (LF' : List.length rhead < FUEL) by (rewrite rev_length in LF; cbn in LF; lia).
+    assert (ALL : forall suf, suffix suf rhead -> node_at s (suf ++ R) = Some NDir).
+    { intros suf [pre ->]. destruct suf as [|b suf'] eqn:ES.
+      - exact DR.
+      - apply (wf_down s (c :: pre)); [exact W | | discriminate].
+        assert (EQ : (c :: pre) ++ (b :: suf') ++ R = (c :: pre ++ b :: suf') ++ R)
+          by (cbn [app]; rewrite <- app_assoc; reflexivity).
+        rewrite EQ, N. discriminate. }
+    assert (C : chain_free R s rhead) by (intros suf S _; right; apply ALL; exact S).
+    unfold step. rewrite (check_benign s (MReg n d) (c :: rhead)); auto; try (split; assumption).
+    2: { intros k Hk. destruct (Nat.eq_dec k (List.length (c :: rhead))) as [->|NEk].
+         - rewrite <- rev_length, firstn_all, rev_involutive. intros t E'. rewrite N in E'. discriminate.
+         - rewrite pos_eq. cbn [List.length] in *.
+           replace (S (List.length rhead) - k) with (S (List.length rhead - k)) by lia. cbn [skipn].
+           apply dir_nosym. apply ALL. apply skipn_suffix. }
+    cbn [is_link m_name with_name]. unfold EFUEL. cbn [extract_at]. rewrite E, rev_removelast.
+    rewrite rev_involutive, (upper_dirs s rhead W DR C DD' LF').
+    rewrite mkdirp_id by (intros suf S _; rewrite ALL by exact S; discriminate).
+    unfold k_open_write.
+    rewrite (walk_fw R s Create (c :: rhead)); auto; try discriminate.
+    - rewrite N. reflexivity.
+    - rewrite rev_length in LF. exact LF.
+    - intros suf S NEQ. destruct (suffix_cons_inv _ _ _ S) as [->|S']; [congruence | apply ALL; exact S'].
+    - right. split; [intros t E'; rewrite N in E'; discriminate | discriminate].
+  Qed.
+
   Lemma step_dir s n i rq :
     comps n = rev rq -> plain (rev rq) ->
     WF s -> node_at s R = Some NDir -> chain_free R s rq ->
